@@ -29,6 +29,7 @@ pub const O_ACKCAD: u32 = 1 << 9; // C08 (receiver): ACK at the latest after W i
 pub const O_FULLWIN: u32 = 1 << 10; // C09: a burst carries the whole negotiated window
 pub const O_RETRY: u32 = 1 << 11; // C04/C07: no give-up before 6 consecutive failed receives, none after RETRY_CAP
 pub const O_REACK: u32 = 1 << 12; // C04 (receiver): a lost ACK is repaired: after a duplicate of the last acknowledged block and a time-out the ACK has been re-sent
+pub const O_REACK2: u32 = 1 << 13; // C04 (receiver): two stall cycles (duplicate, time-out, duplicate, time-out) => the ACK was re-sent in each
 pub const RETRY_BUDGET: usize = 6;
 pub const RETRY_CAP: usize = 8;
 
@@ -358,6 +359,9 @@ fn rcv_before_recv() {
         rcv_close_phase();
         if on(O_REACK) && M.next >= M.nev {
             assert!(M.reacks > 0, "ORACLE reack: lost ACK never repaired (no re-ACK after a duplicate of the last acknowledged block nor after the following time-out)");
+        }
+        if on(O_REACK2) && M.next >= M.nev {
+            assert!(M.reacks >= 2 * M.rep, "ORACLE reack: a second loss of the same ACK is not repaired (one re-ACK per stall, then silence)");
         }
     }
 }
